@@ -1,6 +1,6 @@
 (** Non-vacuity for C11_frag: programs of the fragment, by computation. *)
 From Coq Require Import NArith List.
-From FF Require Import Aml.Grammar Aml.WfProgram Aml.ParserFragF0Final Props.C11_frag.
+From FF Require Import Aml.Grammar Aml.WfProgram Aml.ParserFragF0Final Aml.ParserFragF1Final Props.C11_frag.
 Import ListNotations.
 Local Open Scope N_scope.
 
@@ -34,4 +34,32 @@ Example C11_fragment_excludes :
   in_fragment_F0 [[ADevice 1 (f0_nm 0x44 0x45 0x56 0x30) []]] = false /\
   in_fragment_F0 [[AName (mkName false 0 false [seg4 0x41 0x42 0x43 0x44; seg4 0x41 0x42 0x43 0x44]) (AConst 0 0)]] = false /\
   in_fragment_F0 [[AName (mkName true 0 false [seg4 0x41 0x42 0x43 0x44]) (AConst 0 0)]] = false.
+Proof. vm_compute. repeat split. Qed.
+
+(** ---- F1: nested Devices ---- *)
+Definition f1_program : list (list ast) :=
+  [[AName (f0_nm 0x41 0x42 0x43 0x44) (AConst OP_BYTE 7);
+    ADevice 1 (f0_nm 0x44 0x45 0x56 0x30)
+      [AName (f0_nm 0x4e 0x41 0x4d 0x30) (AConst OP_WORD 0x1234);
+       ADevice 2 (f0_nm 0x44 0x45 0x56 0x31) [ADevice 1 (f0_nm 0x44 0x45 0x56 0x32) []; AName (f0_nm 0x5f 0x41 0x44 0x52) (AConst 0x01 0)];
+       AName (f0_nm 0x4e 0x41 0x4d 0x31) (AConst 0xff 0)];
+    ADevice 3 (f0_nm 0x45 0x4d 0x50 0x54) [];
+    AName (f0_nm 0x5a 0x5a 0x5a 0x5a) (AConst OP_QWORD 0x8877665544332211)]].
+
+Example C11_parse_encode_partial_F1_nonvacuous :
+  wf_program f1_program = true /\ in_fragment_F1 f1_program = true /\ in_fragment_F0 f1_program = false /\
+  in_fragment_F1 f0_program = true.
+Proof. vm_compute. repeat split. Qed.
+
+Example C11_parse_encode_partial_F1_instance : parse_encode_statement f1_program.
+Proof. apply C11_parse_encode_partial_F1; vm_compute; reflexivity. Qed.
+
+Example C11_parse_encode_partial_F1_run : parse_program f1_program = (0, ns f1_program) /\ length (ns f1_program) = 9%nat.
+Proof. vm_compute. split; reflexivity. Qed.
+
+(** outside F1: a Scope block, a Device with a two-segment name, a Method *)
+Example C11_fragment_F1_excludes :
+  in_fragment_F1 [[AScope 1 (mkName true 0 false [seg4 0x5f 0x53 0x42 0x5f]) []]] = false /\
+  in_fragment_F1 [[ADevice 1 (mkName false 0 false [seg4 0x41 0x42 0x43 0x44; seg4 0x41 0x42 0x43 0x44]) []]] = false /\
+  in_fragment_F1 [[AMethod 1 (f0_nm 0x4d 0x54 0x48 0x30) 0 []]] = false.
 Proof. vm_compute. repeat split. Qed.
